@@ -23,6 +23,8 @@ var c13Targets = []TyJ{
 	{K: "named", Pkg: pkgAlpha, PkgName: "alpha", Name: "A", Alias: true},
 }
 
+var c13Tick int
+
 func c13Decorate(r *rand.Rand, in *DataInput) {
 	in.ReplaceLevel = pick(r, []string{"root", "package", "interface", "entry", "parent"})
 	// make sure replaceable top-level named types occur: force some parameters / results
@@ -43,6 +45,12 @@ func c13Decorate(r *rand.Rand, in *DataInput) {
 		t := pick(r, c13Targets)
 		if t.Pkg == s.Pkg && t.Name == s.Name {
 			continue
+		}
+		c13Tick++
+		if in.Placement == "inpkg" && c13Tick%2 == 0 {
+			// the mock lives in the source package: an unexported type of that package that nothing exported mentions
+			// is a legal replacement
+			t = TyJ{K: "named", Pkg: pkgSrc, PkgName: "src", Name: "hiddenRepl"}
 		}
 		in.Replace = append(in.Replace, ReplaceJ{FromPkg: s.Pkg, FromName: s.Name, To: t})
 		// place the source type at top level somewhere (and sometimes nested, where it must NOT be replaced)
@@ -236,10 +244,15 @@ func c13Oracle(in *DataInput, impl map[string]any) Oracle {
 					was := c13Norm(bvs[k].(map[string]any)["typeString"].(string), bimps)
 					if v.Replacement != nil {
 						want := "<" + v.Replacement.Pkg + ">." + v.Replacement.Name
+						local := in.Placement == "inpkg" && v.Replacement.Pkg == pkgSrc
+						if local {
+							// a type of the package the mock is written into: no qualifier, no import
+							want = v.Replacement.Name
+						}
 						if got != want {
 							return fail("not-replaced", "%s.%s %s %d: type %s, replace-type (written at %s level) asks for %s", it.Name, m.Name, kind, k, got, in.ReplaceLevel, want)
 						}
-						if !paths[v.Replacement.Pkg] {
+						if !local && !paths[v.Replacement.Pkg] {
 							return fail("import-missing", "%s.%s: the replacement's package %s is not among the imports", it.Name, m.Name, v.Replacement.Pkg)
 						}
 					} else {
